@@ -11,7 +11,8 @@ Ops:  set <k|nil> <v> <d> | move <k|nil> <d> | remove <k|nil> | tick | drain | s
       new <interval> <slots> <execute-is-nil 0|1>                                         (mode=ctor)
       arm <k> set <k2> <v> <d> | arm <k> move <k2> <d> | arm <k> remove <k2>   (mode=api) one-shot script: the
           next callback (execute or Drain) that runs for key k issues that call on the wheel from inside the callback;
-          the observation of the operation that fired it then also carries `in<k>=ok|err=…`
+          the observation of the operation that fired it then also carries `in<k>=ok|err=…` (sorted by key, then text:
+          callbacks of one operation run concurrently)
       mode=cleaner (core/stores/cache/cleaner.go on a wheel with a harness ticker):
           add <id> <f|s…> (AddCleanTask; the task's outcomes: f = returns an error) | tick | drain (the shutdown listener)
           fired tokens are `id:delay` (the delayTask.delay handed to `clean`)
@@ -258,7 +259,7 @@ def resStr : Res → String
 
 def insertInner (x : Inner) : List Inner → List Inner
   | [] => [x]
-  | y :: ys => if x.1 < y.1 then x :: y :: ys else y :: insertInner x ys
+  | y :: ys => if x.1 < y.1 ∨ (x.1 = y.1 ∧ resStr x.2.2 ≤ resStr y.2.2) then x :: y :: ys else y :: insertInner x ys
 
 /-- observation of one line from the model's / the spec's result. -/
 def renderCb {T : Type} (mode : String) (c : Call) (pre post : ApiG T) (res : Res) (q : Settled T DS) : String :=
